@@ -123,7 +123,12 @@ func StringValueFromCodeField(message proto.Message) (string, bool) {
 		field := reflect.Descriptor().Fields().ByName(protoreflect.Name("value"))
 		if field.Kind() == protoreflect.EnumKind {
 			enum := reflect.Get(field).Enum()
-			code := string(field.Enum().Values().ByNumber(enum).Name())
+			value := field.Enum().Values().ByNumber(enum)
+			if value == nil {
+				// a number the value set does not declare: not a code
+				return "", false
+			}
+			code := string(value.Name())
 			return strcase.ToKebab(code), true
 		}
 		if field.Kind() == protoreflect.StringKind {
